@@ -63,7 +63,7 @@ class C01(object):
              "thorough": {"runs": 3000000, "budget_s": 800, "selftest_every": 300, "fresh_selftest": 12}}
     rule = ("one run = (parameter set drawn swarm style, 1..3000 peaks with counts on team*k and team*k+-1, team 1..32 "
             "and strategy for the strict kernel route, a second independent team/strategy for the Python routes); "
-            "distinct = distinct (parameter/peak digest, team, schedule signature); non-trivial = a team >= 2 ran; in part of the runs also: 2-3 simulated Python caller threads inside compute_geometry with their own parameters, a second Ctransform alive, frame-sorted omegas, pre-existing single-precision/shared derived columns, a refused sf2gv(out=) call, the numba copy called twice on cached k-vectors")
+            "distinct = distinct (parameter/peak digest, team, schedule signature); non-trivial = a team >= 2 ran; in part of the runs also: 2-3 simulated Python caller threads inside compute_geometry with their own parameters, a second Ctransform alive, frame-sorted omegas, pre-existing single-precision/shared derived columns, a refused sf2gv(out=) call, the numba copy called twice on cached k-vectors, 2-3 Python threads sharing one Ctransform (each its own grain position), another table updated after the checked one, get_local_gv results looked at after the next call, xyz2geometry(out=) in Fortran order / single precision")
     components = {"real": enginea.COMPONENTS_REAL + ["compute_xlylzl, compute_geometry, compute_gv (machine code)",
                                                        "transform.Ctransform, columnfile.updateGeometry/updateGV, "
                                                        "point_by_point.get_local_gv (unchanged Python on the instrumented module)",
